@@ -405,7 +405,7 @@ def gen_cases(rng, tier):
     # pattern: both names saved (plain / cloudpickle / interrupted = with leftovers), then every op under either name --
     # in particular the deletes (seeded C19-12: a sweep by unescaped glob misses its own files and hits the neighbour's)
     for fn, g in ((("glob", "wf"), ("globq", "fn"), ("globstar", "wf")) if tier == "quick"
-                  else tuple((fn, g) for fn in GLOBBY for g in GRAPHS)):
+                  else (("glob", "wf"), ("globstar", "fn"), ("globq", "fac"), ("glob", "old"), ("globq", "wf"))):
         al = [x for x in _alphabet(g) if not (x[0] == "foreign" and len(x) == 3)] + _nb_alphabet()
         own = [["save", "ok"], ["save", "pf"], ["crash", "ok", 3], ["crash", "pf", 5]]
         other = [["at", "nb", "save", "ok"], ["at", "nb", "save", "pf"], ["at", "nb", "crash", "ok", 3]]
